@@ -103,6 +103,15 @@ func (l *Lexer) Position() token.Position {
 
 // Next returns the next Token from the input that is being lexed.
 func (l *Lexer) Next() (token.Token, error) {
+	tok, err := l.next()
+	if err != nil && tok == (token.Token{}) {
+		// Give the error the position of the text that could not be read
+		tok = l.newToken(token.ILLEGAL, "")
+	}
+	return tok, err
+}
+
+func (l *Lexer) next() (token.Token, error) {
 	var tok token.Token
 	l.skipTabsAndSpaces()
 	l.tokenStartPosition = l.Position()
@@ -111,13 +120,13 @@ func (l *Lexer) Next() (token.Token, error) {
 	if l.ch == rune('#') ||
 		(l.ch == rune('/') && l.peekChar() == rune('/')) {
 		l.skipComment()
-		return l.Next()
+		return l.next()
 	}
 
 	// multi-line comments
 	if l.ch == rune('/') && l.peekChar() == rune('*') {
 		l.skipMultiLineComment()
-		return l.Next()
+		return l.next()
 	}
 
 	if l.prevToken.Type == token.EOF {
